@@ -17,6 +17,7 @@ func init() {
 		c17CookieDefaults(c)
 		c17CorsTable(c)
 		c17CorsChain(c)
+		c17HeaderValueTable(c)
 		c17Preflight(c)
 		c17CorsFirst(c)
 	})
@@ -210,7 +211,7 @@ func c17HeadersOnce(c *core.Ctx) {
 					// before the 200 status and the body write
 					for _, w := range u.Calls() {
 						// only writes whose destination is the response (the HTTP context)
-					if (w.Key == "io.Copy" || w.Key == "io.WriteString") && w.Arg(0) != nil && core.TypeName(u.Info().TypeOf(w.Arg(0))) == "HttpContext" && !g.Dominates(cl.Loc, w.Loc) {
+						if (w.Key == "io.Copy" || w.Key == "io.WriteString") && w.Arg(0) != nil && core.TypeName(u.Info().TypeOf(w.Arg(0))) == "HttpContext" && !g.Dominates(cl.Loc, w.Loc) {
 							merged = false
 						}
 					}
@@ -797,5 +798,103 @@ func c17CorsChain(c *core.Ctx) {
 			}
 		}
 		c.Check(R, "types.(*cors).applyHeaders/copies-headers+sets-Vary", ah.Pos(), copies && vary, keyf("every Kv copied to ResponseHeaders: %v; Vary set from the collected list when non-empty: %v", copies, vary))
+	}
+}
+
+// c17HeaderValueTable — C17.5d: the list-valued CORS options.
+func c17HeaderValueTable(c *core.Ctx) {
+	const R = "C17.5d"
+	c.Rule(R, "CORS header value table: configureMethods / configureAllowedHeaders / configureExposedHeaders switch on the dynamic type of their option — `string` ⇒ the header carries that string, `[]string` ⇒ strings.Join(list, \",\"), under the header name of the function (Access-Control-Allow-Methods / -Allow-Headers / -Expose-Headers); configureAllowedHeaders falls back to the legacy Headers alias exactly when AllowedHeaders is unset (== nil), and only its nil arm reflects Access-Control-Request-Headers (adding it to Vary)")
+	specs := []struct{ fn, header string }{
+		{"types.(*cors).configureMethods", "Access-Control-Allow-Methods"},
+		{"types.(*cors).configureAllowedHeaders", "Access-Control-Allow-Headers"},
+		{"types.(*cors).configureExposedHeaders", "Access-Control-Expose-Headers"},
+	}
+	for _, sp := range specs {
+		u := c.Fn(R, sp.fn)
+		if u == nil {
+			continue
+		}
+		info := u.Info()
+		var ts *ast.TypeSwitchStmt
+		ast.Inspect(u.Body, func(x ast.Node) bool {
+			if t, ok := x.(*ast.TypeSwitchStmt); ok && ts == nil {
+				ts = t
+			}
+			return true
+		})
+		if !c.Exists(R, sp.fn+"/type-switch", u.Pos(), ts != nil, "the option's dynamic type selects the rendering") {
+			continue
+		}
+		arms := map[string]bool{}
+		for _, cc := range ts.Body.List {
+			cl := cc.(*ast.CaseClause)
+			if len(cl.List) != 1 {
+				continue
+			}
+			tn := core.ExprString(cl.List[0])
+			// the Kv literal(s) of this arm
+			okArm := false
+			ast.Inspect(cl, func(x ast.Node) bool {
+				lit, isL := x.(*ast.CompositeLit)
+				if !isL || core.TypeName(info.TypeOf(lit)) != "Kv" {
+					return true
+				}
+				var key string
+				var val ast.Expr
+				for _, el := range lit.Elts {
+					if kv, isKV := el.(*ast.KeyValueExpr); isKV {
+						if id, isI := kv.Key.(*ast.Ident); isI {
+							switch id.Name {
+							case "Key":
+								key, _ = core.ConstString(info, kv.Value)
+							case "Value":
+								val = kv.Value
+							}
+						}
+					}
+				}
+				if key != sp.header || val == nil {
+					return true
+				}
+				bound := info.Implicits[cl] // the per-clause object of `x := opt.(type)`
+				isBound := func(e ast.Expr) bool {
+					id, ok := ast.Unparen(e).(*ast.Ident)
+					return ok && bound != nil && info.Uses[id] == bound
+				}
+				switch tn {
+				case "string":
+					okArm = isBound(val)
+				case "[]string":
+					if ce, isC := ast.Unparen(val).(*ast.CallExpr); isC && u.CalleeKey(ce) == "strings.Join" && len(ce.Args) == 2 && isBound(ce.Args[0]) {
+						sep, _ := core.ConstString(info, ce.Args[1])
+						okArm = sep == ","
+					}
+				case "nil":
+					okArm = true
+				}
+				return true
+			})
+			if tn == "string" || tn == "[]string" {
+				arms[tn] = okArm
+				c.Check(R, keyf("%s/arm[%s]", sp.fn, tn), cl.Pos(), okArm, keyf("%s carries the option's own value (string as is, list joined with ','))", sp.header))
+			}
+		}
+		c.Check(R, sp.fn+"/both-shapes", u.Pos(), len(arms) == 2, "string and []string arms present")
+	}
+	// the legacy alias
+	if u := c.Fn(R, "types.(*cors).configureAllowedHeaders"); u != nil {
+		info := u.Info()
+		g := u.Graph()
+		n, ok := 0, false
+		for _, a := range assignsIn(u, func(l ast.Expr) bool { _, isI := ast.Unparen(l).(*ast.Ident); return isI }) {
+			if a.Rhs == nil || fieldOf(info, a.Rhs) != "CorsOptions.Headers" && !strings.HasSuffix(fieldOf(info, a.Rhs), ".Headers") {
+				continue
+			}
+			n++
+			lhs := a.Lhs
+			ok = g.GuardedBy(a.Loc, nilGuard(false, func(x *core.Unit, e ast.Expr) bool { return sameObj(x.Info(), e, lhs) }))
+		}
+		c.Check(R, "types.(*cors).configureAllowedHeaders/alias-only-when-unset", u.Pos(), n == 1 && ok, "allowedHeaders = options.Headers exactly on the allowedHeaders == nil edge (a configured list is never replaced by the alias or by the request's own header list)")
 	}
 }
